@@ -589,6 +589,24 @@ def typed(x):
     return (type(x).__name__, repr(x))
 
 
+def universe_problems(x, path="") -> list[str]:
+    """Leaves outside the modelled value universe that json would nevertheless accept (subclasses of str/int/float/
+    list/dict/tuple, e.g. lxml's _ElementUnicodeResult) and closed BytesIO buffers (to_json would raise ValueError)."""
+    if isinstance(x, io.BytesIO):
+        return [f"{path}: closed BytesIO"] if x.closed else []
+    if dataclasses.is_dataclass(x) and not isinstance(x, type):
+        return [p for f in dataclasses.fields(x) for p in universe_problems(getattr(x, f.name), f"{path}.{f.name}")]
+    if isinstance(x, dict):
+        own = [] if type(x) is dict else [f"{path}: dict subclass {type(x).__name__}"]
+        return own + [p for k, v in x.items() for p in universe_problems(v, f"{path}[{k!r}]")]
+    if isinstance(x, (list, tuple, set)):
+        own = [] if type(x) in (list, tuple, set) else [f"{path}: {type(x).__name__} (sequence subclass)"]
+        return own + [p for i, v in enumerate(x) for p in universe_problems(v, f"{path}[{i}]")]
+    if isinstance(x, (str, int, float)) and type(x) not in (str, int, float, bool):
+        return [f"{path}: {type(x).__name__} (subclass of {[b.__name__ for b in type(x).__mro__ if b in (str, int, float)][0]})"]
+    return []
+
+
 def nonstring_keys(x, path="") -> list[str]:
     """Dict keys that are not str, anywhere in the value."""
     if dataclasses.is_dataclass(x) and not isinstance(x, type):
@@ -889,6 +907,8 @@ def boundary_sizes(consts: list[int], tier_quick: bool) -> list[int]:
     (c-1, c, c+1, 2c-1, 2c, 2c+1, 3c+1), plus the residues mod 3 of small lengths."""
     sizes = set(range(0, 8))
     for k in range(6, 22):
+        if tier_quick and 16 < k < 20:
+            continue                      # quick tier: 2^6..2^16, 2^20, 2^21 (thorough: every k)
         sizes |= {2 ** k - 1, 2 ** k, 2 ** k + 1}
     sizes |= {3 * 2 ** 20 + 1} if not tier_quick else set()
     for c in consts:
@@ -1064,8 +1084,10 @@ def run(ctx):
         "G-dump: tools/props/c05.py prints the lazily built _TYPE_REGISTRY (fields(), typing.get_type_hints, "
         "defaults/default_factory(), __post_init__ statements via ast — unknown statements fail closed), the "
         "str.isspace code points and the non-dataclass interface names as Coq literals",
-        "oracles: base64 (theorems assume only dec(enc b) = b; recorded per case in the correspondence), "
-        "str.isspace (universally quantified), iterate_units (universally quantified in the CLI theorems)",
+        "base64: executable RFC 4648 model proved (all lengths) and compared with the library on sampled byte strings / "
+        "canonical and non-canonical strings; the parametric theorems additionally hold for any codec with dec(enc b) = b; "
+        "Python's lenient decoding of non-canonical strings is recorded per case (only reachable through marker-named content keys)",
+        "oracles: str.isspace (universally quantified), iterate_units (universally quantified in the CLI theorems)",
         "json.dumps/json.loads: identity on values without foreign leaves (json_text_roundtrip), validated on every case",
         "modelled by hand, tied by differential runs: serialization.py (_serialize_for_json, serialize_extraction, "
         "_unwrap_optional, _deserialize_value, _deserialize_dataclass, deserialize_extraction), dataclass "
@@ -1093,7 +1115,9 @@ def run(ctx):
         "C05_dumps_ok", "C05_roundtrip_partial", "C05_roundtrip_value", "C05_no_binary", "C05_position_restored",
         "C05_cli_shape", "C05_cli_unit_shape", "C05_markers_refuted_any_registry", "C05_xlsx_cell_json_clean",
         "C05_cli_all_or_nothing", "C05_roundtrip_same_object", "C05_nonstring_keys_refuted",
-        "C05_base64_roundtrip_all_lengths", "C05_base64_chunks_at_multiples_of_3", "C05_base64_chunks_unaligned_refuted"])
+        "C05_base64_roundtrip_all_lengths", "C05_base64_chunks_at_multiples_of_3", "C05_base64_chunks_unaligned_refuted",
+        "C05_roundtrip_concrete_codec", "C05_base64_encoder_output_canonical", "C05_decoder_sees_only_canonical",
+        "C05_from_json_value_error"])
     ok_inst, _ = ctx.prove("C05/Inst.v", ["Gen/C05Registry.vo", "C05/Corr.vo", "C05/Proofs.vo", "C05/Base64.vo"], expected=[
         "C05_registry_wf", "C05_hints_known", "C05_defaults_ok", "C05_markers_never_confused_refuted",
         "C05_roundtrip_hyps_satisfiable"])
@@ -1140,7 +1164,20 @@ def run(ctx):
                 o.data = bytearray(b"BM\x00\x01dib")
                 insts.append(o)
 
-    ser_cases, pipe_cases, hyp_cases, restored = [], [], [], []
+    # deeply nested plain data at an Any position (recursion in serialiser, deserialiser and json)
+    for name, fld in (("XlsxSheet", "data"), ("XlsSheet", "data")):
+        if name in reg:
+            deep = "leaf"
+            for d_ in range(ctx.n(30, 60)):
+                deep = [deep, d_] if d_ % 2 else {"k": deep}
+            try:
+                o = g.instance(name)
+                setattr(o, fld, [[deep]] if name == "XlsxSheet" else [{"col": deep}])
+                insts.append(o)
+            except Exception:  # noqa
+                pass
+
+    ser_cases, pipe_cases, hyp_cases, restored, b64i_cases = [], [], [], [], []
     kept = []
     for x in insts:
         tb = Tables()
@@ -1170,6 +1207,7 @@ def run(ctx):
         rt = "None" if y is None else "(Some " + val_term(y) + ")"
         collect_marker_strs(jt, tb)
         pipe_cases.append(f"({vt}, {tb.enc_table()}, {tb.dec_table()}, {rt})")
+        b64i_cases.append(f"({vt}, {json_term(jt)}, {rt})")
         hyp_cases.append(vt)
         kept.append(x)
         nontriv = bool(payloads(x)) or any(dataclasses.is_dataclass(getattr(x, f.name)) or
@@ -1188,6 +1226,8 @@ def run(ctx):
                          ty="val * list (bytes * str) * list (str * option bytes) * option val")
     f_hyps = POOL.submit(coq_eval_shards, ctx, "hyps", PRE, "(hyps R WS)", hyp_cases, shard=200, ty="val")
     f_hyps2 = POOL.submit(coq_eval_shards, ctx, "hyps2", PRE, "(hyps_strict R WS)", hyp_cases, shard=200, ty="val")
+    f_b64i = POOL.submit(coq_eval_shards, ctx, "b64inst", PRE, "(b64_inst_case R WS)", b64i_cases, shard=100,
+                         ty="val * json * option val")
 
     def finish_instances():
         oks, fs, logs = f_ser.result()
@@ -1203,6 +1243,11 @@ def run(ctx):
         okh, nh, logh = f_hyps.result()
         ctx.obligation("evaluation of the theorem hypotheses on the instances", okh, logh[:800])
         nohyp = set(nh)
+        okbi, fbi, logbi = f_b64i.result()
+        ctx.traces += len(b64i_cases)
+        ctx.disagreements += len(fbi)
+        ctx.obligation("correspondence:instances with the CONCRETE base64 model (serialize always; pipeline under the theorem's hypotheses)",
+                       okbi and not fbi, (f"{len(fbi)} disagreements, first: {b64i_cases[fbi[0]][:900] if fbi else ''} " + logbi)[:2000])
         okh2, nh2, logh2 = f_hyps2.result()
         ctx.obligation("evaluation of the same-object hypotheses on the instances", okh2, logh2[:800])
         nostrict = set(nh2)
@@ -1253,7 +1298,14 @@ def run(ctx):
     mark("instances-oracle")
     # ---- D2: perturbed JSON stream for the deserialiser
     jg = JGen(ctx, reg, hint_pool)
-    dcases, dinfo = [], []
+    dcases, dinfo, ocases = [], [], []
+    for j0 in (None, 5, "x", [], [{"_type": "TableDim"}], {}, {"type": "TableDim"}, {"_type": None}, {"_type": "Nope"}):
+        try:
+            S.deserialize_extraction(copy.deepcopy(j0))
+            code0 = 0
+        except Exception as e:  # noqa
+            code0 = 1 if type(e) is ValueError else 2
+        ocases.append(f"({json_term(j0)}, [], {code0}%nat)")
     for _ in range(ctx.n(1200, 6000)):
         top = jg.rng.random() < 0.3
         j = jg.dc(0) if (top or jg.rng.random() < 0.5) else jg.value()
@@ -1263,18 +1315,28 @@ def run(ctx):
         j = json.loads(json.dumps(j))
         tb = Tables()
         jt = json_term(j, tb)
+        code = 0
         try:
             r = S.deserialize_extraction(copy.deepcopy(j)) if top else S._deserialize_value(copy.deepcopy(j), T)
             rt = "(Some " + val_term(r) + ")"
-        except Exception:  # noqa
+        except Exception as e:  # noqa
             rt = "None"
+            code = 1 if type(e) is ValueError else 2
+        if top:
+            ocases.append(f"({jt}, {tb.dec_table()}, {code}%nat)")
         dcases.append(f"({coq_bool(top)}, {jt}, {ty_term(T)}, {tb.dec_table()}, {rt})")
         dinfo.append((top, j, repr(T)))
         ctx.case(("deser", top, jt, repr(T)), any(m in json.dumps(j) for m in MARKERS),
                  kind="json-stream:" + ("top" if top else "value") + (":raises" if rt == "None" else ":ok"))
     f_deser = POOL.submit(coq_eval_shards, ctx, "deser", PRE, "(deser_case R WS)", dcases, shard=120,
                           ty="bool * json * ty * list (str * option bytes) * option val")
+    f_out = POOL.submit(coq_eval_shards, ctx, "outcome", PRE, "(top_outcome_case R WS)", ocases, shard=150,
+                        ty="json * list (str * option bytes) * nat")
+
     def finish_deser():
+        oko, fo, logo = f_out.result()
+        ctx.obligation("correspondence:deserialize_extraction outcome class (value / ValueError / other exception)",
+                       oko and not fo, (f"{len(fo)} disagreements, first: {ocases[fo[0]][:600] if fo else ''} " + logo)[:1500])
         okd, fd, logd = f_deser.result()
         ctx.traces += len(dcases)
         ctx.disagreements += len(fd)
@@ -1346,9 +1408,33 @@ def run(ctx):
     bsamples += [bytes([v]) * n for v in (0, 255) for n in (1, 2, 3, 4)]
     f_b64 = POOL.submit(coq_eval_shards, ctx, "b64", PRE + "From S2T Require Import C05.Base64.\n", "b64_case",
                         [f"({nlist(b)}, {cstr(base64.b64encode(b).decode('ascii'))})" for b in bsamples], shard=40, ty="bytes * str")
+    # canonical (strictly decodable) vs not: encodings and their perturbations; and the library's lenient decoder agrees
+    # with its strict one on every canonical string (premise of C05_decoder_sees_only_canonical)
+    cstrings = list(STR_VOCAB) + ["aGk=", "aGk", "aGk==", "QQ==", "QR==", "QUI=", "QUJ=", "QQ=", "=QQ=", "QQ==QQ==", "aGk=\n", " aGk=",
+                                  "aG k=", "a-_=", "aGk=aGk=", "====", "A", "AA", "AAA", "AAAA", "AA==AA", "YQ==YWI="]
+    for b in bsamples[:48]:
+        e = base64.b64encode(b).decode("ascii")
+        cstrings += [e, e[:-1], e + "=", e.replace("=", ""), e[:2] + "\n" + e[2:], e.lower()]
+    ccases, lenient_bad = [], []
+    for s_ in dict.fromkeys(cstrings):
+        try:
+            strict = base64.b64decode(s_.encode("utf-8"), validate=True)
+            canon_ = base64.b64encode(strict).decode("ascii") == s_
+        except Exception:  # noqa
+            strict, canon_ = None, False
+        if canon_:
+            try:
+                if base64.b64decode(s_.encode("utf-8")) != strict:
+                    lenient_bad.append(s_)
+            except Exception:  # noqa
+                lenient_bad.append(s_)
+        ccases.append(f"({cstr(s_)}, {coq_bool(canon_)})")
+        ctx.case(("canonical", s_), True, kind="b64-string:" + ("canonical" if canon_ else "non-canonical"))
+    ctx.obligation("library: lenient b64decode == strict b64decode on canonical strings", not lenient_bad, str(lenient_bad[:3]))
+    f_canon = POOL.submit(coq_eval_shards, ctx, "canon", PRE, "canon_case", ccases, shard=200, ty="str * bool")
     sizes = boundary_sizes(consts, ctx.tier == "quick")
     ctx.extra["payload_lengths_sampled"] = {"count": len(sizes), "max": max(sizes),
-                                            "rule": "0..7, 2^k-1/2^k/2^k+1 for k=6..21, and c-1,c,c+1,2c-1,2c,2c+1,3c+1 for every "
+                                            "rule": "0..7, 2^k-1/2^k/2^k+1 for k=6..21 (quick tier: k=6..16,20,21), and c-1,c,c+1,2c-1,2c,2c+1,3c+1 for every "
                                                     "integer constant c (8 < c <= 8 MiB) of serialization.py; one pseudo-random "
                                                     "payload per length and carrier"}
     bio_cls = [(n, f.name) for n in g.names for f in dataclasses.fields(reg[n])
@@ -1400,6 +1486,9 @@ def run(ctx):
                                                   "deserialize_extraction(json.loads(json.dumps(serialize_extraction(o))))"})
 
     def finish_b64():
+        okcn, fcn, logcn = f_canon.result()
+        ctx.obligation("correspondence:b64_canonical == (strict library decode succeeds and re-encodes to the string)",
+                       okcn and not fcn, (f"{len(fcn)} disagreements, first: {ccases[fcn[0]] if fcn else ''} " + logcn)[:800])
         okb, fb, logb = f_b64.result()
         ctx.traces += len(bsamples)
         ctx.obligation("correspondence:model base64 (b64enc/b64dec) == base64 library", okb and not fb,
@@ -1430,6 +1519,7 @@ def run(ctx):
                        "; ".join(xls_problems))
         multi = None
         unit_bin, result_bin = [], set()    # fixtures whose units / results carry binary payloads
+        universe_bad = []
         for label, p in docs:
             try:
                 rs = list(sharepoint2text.read_file(str(p)))
@@ -1440,6 +1530,9 @@ def run(ctx):
                 multi = (label, p)
             for k, x in enumerate(rs):
               try:
+                up = universe_problems(x)
+                if up:
+                    universe_bad.append((label, up[:3]))
                 nsk = nonstring_keys(x)
                 if nsk:
                     ctx.finding(f"non-string-dict-key:{label}",
@@ -1492,6 +1585,8 @@ def run(ctx):
                 ctx.finding(f"implementation-raises:{label}", f"an accessor/serialiser call raises {e!r} on the result of {label}",
                             {**doc_replay(label, p), "error": repr(e), "trace": __import__("traceback").format_exc()[-1500:]})
 
+        ctx.obligation("inventory: every leaf of every real extraction result lies in the modelled value universe "
+                       "(exact builtin types, open BytesIO)", not universe_bad, str(universe_bad[:4]))
         mark("documents")
         # ---- CLI: four JSON modes, on single results, on multi-result fixtures, on a generated archive whose members
         # carry images (binary payloads in the units AND in the extraction objects), and on combinations of real
@@ -1684,7 +1779,14 @@ META = {
                   "binary leaves set to None; BytesIO position restored; CLI shape. The unrestricted 'markers never "
                   "confused' statement is refuted with a witness replayed on the real registry. Model tied to the code by "
                   "the regenerated registry (registry_wf, hints_known, defaults_ok) and ~3k differential cases per run.",
-    "level_note": "Trusted: Coq kernel+VM; G-dump printer; hand-written model (validated differentially); json module as "
-                  "identity on encodable values; base64 only through dec(enc b)=b; cyclic graphs / recursion depth / "
-                  "str,int subclasses not modelled.",
+    "level_note": "Trusted: Coq kernel+VM; G-dump printer and the ast inventories (codec helpers, cli.py flag flow); hand-written "
+                  "model (validated differentially). base64 is now a proved executable model (C05_roundtrip_concrete_codec, "
+                  "C05_decoder_sees_only_canonical) tied to the library on sampled strings; Python's lenient b64decode on "
+                  "non-canonical input is proved irrelevant for to_json output. Outside, by nature: the json module's text "
+                  "encoder/decoder (third party; taken as identity on values without foreign leaves, validated on every case, "
+                  "incl. NaN/Infinity tokens and lone surrogates); cyclic object graphs and interpreter recursion limits "
+                  "(runtime; nesting depth 30/60 is sampled); closed BytesIO and str/int/list subclasses are not in the value "
+                  "universe — an inventory obligation checks that no real extraction result contains them; exception classes "
+                  "other than deserialize_extraction's ValueError are one class 'raises'; payload lengths above 2 MiB only around "
+                  "constants found in serialization.py.",
 }
